@@ -21,7 +21,7 @@ import (
 // pair only with probability 2^-32 per pair, so the many-keys histories end with every pair used
 // back to back (a, b, a, b): whatever the library keeps per key must be recognised by the key.
 // Full 64-bit digests are out of reach of a birthday table; for FNV-1 / FNV-1a 64, and the leading
-// 8 bytes of MD5 and SHA-256 a pair was found by cycle finding (collidingWide). Fingerprints wider
+// 8 bytes of MD5, SHA-1 and SHA-256 a pair was found by cycle finding (collidingWide). Fingerprints wider
 // than 64 bits, or keyed ones (hash/maphash), remain a stated limit.
 
 type keyDigest struct {
@@ -85,6 +85,7 @@ var collidingWide = []struct {
 	{"fnv1a-64", "4c6f526157414e21441c77fbab3f2eed", "4c6f526157414e2174289b4feef96af8", func(k []byte) uint64 { h := fnv.New64a(); h.Write(k); return h.Sum64() }},
 	{"md5-8", "4c6f526157414e216f06d7fdc1c506dc", "4c6f526157414e21a705086571baba46", func(k []byte) uint64 { s := md5.Sum(k); return binary.BigEndian.Uint64(s[:]) }},
 	{"sha256-8", "4c6f526157414e21958cf4483c5f4988", "4c6f526157414e2145cdb9fa42389749", func(k []byte) uint64 { s := sha256.Sum256(k); return binary.BigEndian.Uint64(s[:]) }},
+	{"sha1-8", "4c6f526157414e21bb9943e7c10aac13", "4c6f526157414e2125c5a643364e7950", func(k []byte) uint64 { s := sha1.Sum(k); return binary.BigEndian.Uint64(s[:]) }},
 }
 
 // collisionKeyBase is the argument number from which manyKey returns the colliding keys: argument
